@@ -87,7 +87,12 @@ pub fn eval_case(ops: &[Op], drv: Option<&mut Drv>, pool: &Pool, rng: &mut Rng) 
         if got != hooks {
             out.impl_v.push(("C13".into(), format!("setup round {}: setup hooks called for {:?}, registered systems are {:?}", round, got, hooks)));
         }
-        if log.iter().any(|e| e.0 != 'S') {
+        let mut got_u: Vec<usize> = log.iter().filter(|e| e.0 == 'U').map(|e| e.1).collect();
+        got_u.sort();
+        if got_u != hooks {
+            out.impl_v.push(("C13".into(), format!("setup round {}: the systems' own `System::setup` was called for {:?}, registered systems are {:?}", round, got_u, hooks)));
+        }
+        if log.iter().any(|e| e.0 == 'X') {
             out.impl_v.push(("C13".into(), "setup called a dispose hook".into()));
         }
         for (k, v) in &before {
@@ -107,7 +112,8 @@ pub fn eval_case(ops: &[Op], drv: Option<&mut Drv>, pool: &Pool, rng: &mut Rng) 
         }
         // --- model
         if let Some(d) = drv.as_deref_mut() {
-            let real = if log.is_empty() { "-".to_string() } else { log.iter().map(|e| format!("{}{}", e.0, e.1)).collect::<Vec<_>>().join(" ") };
+            let slog: Vec<&(char, usize)> = log.iter().filter(|e| e.0 == 'S').collect();
+            let real = if slog.is_empty() { "-".to_string() } else { slog.iter().map(|e| format!("{}{}", e.0, e.1)).collect::<Vec<_>>().join(" ") };
             let model = d.ask("lifecycle setup");
             let model_s: String = model.split_whitespace().filter(|x| x.starts_with('S')).collect::<Vec<_>>().join(" ");
             if (if model_s.is_empty() { "-".to_string() } else { model_s }) != real {
